@@ -65,6 +65,9 @@ type Chain struct {
 	OnStoreReverted func(RevertEvent)
 
 	Stats map[string]int
+	// WireBlocks offers every generated block as a peer would receive it: decoded from its own binary encoding
+	// (the payout of a v1 revision is not transmitted and arrives as the all-ones sentinel).
+	WireBlocks bool
 	// NoStaleEphemeralProofs keeps in-block parents free of attached Merkle proofs.
 	NoStaleEphemeralProofs bool
 	// NoLegacyEphemeralSF disables spends of ephemeral siafund parents below the
@@ -244,6 +247,11 @@ func (c *Chain) Grow(n int, p Plan) int {
 		if err != nil {
 			c.Stats["build_skipped:"+err.Error()]++
 			continue
+		}
+		if c.WireBlocks {
+			if wb, ok := WireBlock(b); ok {
+				b = wb
+			}
 		}
 		if err := c.Offer(b, bs, kinds); err != nil {
 			c.Stats["gen_rejected"]++
